@@ -7,7 +7,7 @@ from .core import AnalysisError, Repo, dotted, parent, walk_no_nested, norm_src
 
 
 class AttrStore:
-    __slots__ = ("name", "value", "method", "guards", "node", "kind")
+    __slots__ = ("name", "value", "method", "guards", "node", "kind", "via", "selfname")
 
     def __init__(self, name, value, method, guards, node):
         self.name = name
@@ -15,6 +15,8 @@ class AttrStore:
         self.method = method  # name of the method containing the store
         self.guards = guards  # list[(test_src, polarity)]
         self.node = node
+        self.via = None
+        self.selfname = "self"
         if isinstance(value, ast.Lambda):
             self.kind = "lambda"
         elif value is not None and isinstance(value, ast.Attribute) and dotted(value) and dotted(value).startswith("self."):
@@ -118,6 +120,45 @@ class Model:
                     self.classes.setdefault(n.name, []).append(ci)
                     self.by_node[id(n)] = ci
         self._choices: dict[int, list[list[ClassInfo]]] = {}
+        self._setter_functions()
+
+    def _setter_functions(self):
+        """Module-level helpers that store attributes on their first parameter (`object.X = ...`), e.g.
+        constraints/_base.auxiliary_functions, concatenate_qDOF.  A class whose method calls `f(self, ...)` gets
+        those stores (method = the calling method, guards = guards of the call)."""
+        setters = {}  # function name -> list[(attr, value, node)]
+        for rel, mod in self.repo.modules.items():
+            if not rel.startswith("cardillo/"):
+                continue
+            for s in mod.tree.body:
+                if isinstance(s, ast.FunctionDef) and s.args.args:
+                    p0 = s.args.args[0].arg
+                    sts = []
+                    for n in walk_no_nested(s):
+                        if isinstance(n, ast.Assign):
+                            for t in n.targets:
+                                for tt in _flatten_targets(t):
+                                    if isinstance(tt, ast.Attribute) and isinstance(tt.value, ast.Name) and tt.value.id == p0:
+                                        v = n.value if (len(n.targets) == 1 and tt is t) else None
+                                        sts.append((tt.attr, v, n))
+                    if sts:
+                        setters[s.name] = (p0, sts)
+        self.setter_functions = setters
+        for ci in self.all_classes():
+            for mname, m in ci.methods.items():
+                if not m.args.args:
+                    continue
+                selfname = m.args.args[0].arg
+                for n in walk_no_nested(m):
+                    if isinstance(n, ast.Call) and isinstance(n.func, ast.Name) and n.func.id in setters and n.args \
+                            and isinstance(n.args[0], ast.Name) and n.args[0].id == selfname:
+                        p0, sts = setters[n.func.id]
+                        g = guards_of(n, m)
+                        for (attr, v, node) in sts:
+                            st = AttrStore(attr, v, mname, g, node)
+                            st.via = n.func.id
+                            st.selfname = p0
+                            ci.stores.setdefault(attr, []).append(st)
 
     # ---- lookup -----------------------------------------------------------
     def cls(self, name, rel=None) -> ClassInfo:
